@@ -141,6 +141,18 @@ class SessionWorld:
         self.M, self.e2e = M, e2e
         M.MOLS.setdefault("LiH_b", dict(atom="Li 0 0 0.05; H 0.1 0 1.75", spin=0))
         self.mols = {k: M.make_mol(v) for k, v in MOLNAMES.items()}
+        # geometries each molecule OBJECT can be moved to in place (mol.set_geom_): the original one and a RIGIDLY moved one
+        # (90-degree rotation + translation).  A stretched geometry is deliberately not used: the SDMX generator derives its
+        # exponent ladder from the largest interatomic distance when it is created, so after an in-place stretch the kept
+        # generator differs from a fresh one by the ladder truncation (1e-8 relative, observation O9) -- a rigid motion keeps
+        # the ladder and the answers must be identical; geomidx[name] says which geometry the object holds now
+        self.geoms = {}
+        for k, mol in self.mols.items():
+            c0 = mol.atom_coords(unit="Bohr").copy()
+            rot = np.array([[0.0, -1.0, 0.0], [1.0, 0.0, 0.0], [0.0, 0.0, 1.0]])
+            c1 = c0.dot(rot.T) + np.array([0.3, -0.2, 0.5])
+            self.geoms[k] = [c0, c1]
+        self.geomidx = {k: 0 for k in self.mols}
         self.seed = seed
         self.schemes = {"becke": gen_grid.original_becke, "stratmann": gen_grid.stratmann}
         rng = np.random.default_rng(4000 + seed)
@@ -179,14 +191,33 @@ class SessionWorld:
         n, e, v = fn(mol, ks.grids, ks.xc, dm.copy())
         return np.asarray(n, dtype=float), np.asarray(e, dtype=float), np.asarray(v)
 
-    def fresh(self, fam, spin, level, scheme, molname, df):
-        key = (fam, spin, level, scheme, molname)
+    def move_in_place(self, molname):
+        """mol.set_geom_ on the SAME object (toggle between the two geometries)"""
+        self.geomidx[molname] = 1 - self.geomidx[molname]
+        self.mols[molname].set_geom_(self.geoms[molname][self.geomidx[molname]], unit="Bohr")
+
+    def restore_geoms(self):
+        for k in self.mols:
+            if self.geomidx[k] != 0:
+                self.move_in_place(k)
+
+    def fresh(self, fam, spin, level, scheme, molname, df, gidx=0):
+        key = (fam, spin, level, scheme, molname, gidx)
         if key not in self.fresh_cache:
-            ks = self.decorate(self.plain(spin, level, scheme, molname), fam)
-            ks.build()
-            ns = 1 if spin == "R" else 2
-            ks.initialize_grids(self.mols[molname], self.dm[molname][ns])
-            self.fresh_cache[key] = self.evaluate(ks, molname, ns)
+            # fresh objects throughout: a NEW molecule object at the geometry the history's object holds now
+            fmol = self.mols[molname].copy()
+            fmol.set_geom_(self.geoms[molname][gidx], unit="Bohr")
+            fmol.build(False, False)
+            saved = self.mols[molname]
+            self.mols[molname] = fmol
+            try:
+                ks = self.decorate(self.plain(spin, level, scheme, molname), fam)
+                ks.build()
+                ns = 1 if spin == "R" else 2
+                ks.initialize_grids(fmol, self.dm[molname][ns])
+                self.fresh_cache[key] = self.evaluate(ks, molname, ns)
+            finally:
+                self.mols[molname] = saved
         return self.fresh_cache[key]
 
 
@@ -237,6 +268,7 @@ def replay(job):
     viol, ncmp = [], 0
     molname_of = lambda m: next((k for k, v in W.mols.items() if v is m), "?")
     state = {"molname_of": molname_of}
+    W.restore_geoms()
     spin, level, scheme = "R", 0, "becke"
     ks = W.plain(spin, level, scheme, "m1")
     keep = [ks]
@@ -279,9 +311,12 @@ def replay(job):
                 mn = molname_of(ks.mol)
                 ns = op[1]
                 res = W.evaluate(ks, mn, ns)
-                evals.append((step, fam, prev["spin"], int(ks.grids.level), prev["scheme"], mn, prev["df"], res))
+                evals.append((step, fam, prev["spin"], int(ks.grids.level), prev["scheme"], mn, prev["df"], res, W.geomidx[mn]))
             elif name == "reset":
                 ks.reset(W.mols[op[1]])
+            elif name == "move_in_place":
+                W.move_in_place(molname_of(ks.mol))
+                ks.grids.build(with_non0tab=True)
             elif name == "density_fit":
                 ks = ks.density_fit()
             elif name == "to_other_spin":
@@ -345,8 +380,8 @@ def replay(job):
             diverged = True      # the states differ from here on: later projections are not comparable
         prev = cur
     # ---- oracle: every evaluation equals the evaluation by fresh objects configured the same way
-    for step, f, sp_, lvl, sch, mn, df, res in evals:
-        ref = W.fresh(f, sp_, lvl, sch, mn, df)
+    for step, f, sp_, lvl, sch, mn, df, res, gidx in evals:
+        ref = W.fresh(f, sp_, lvl, sch, mn, df, gidx)
         d = [cmp(a, b) for a, b in zip(res, ref)]
         ncmp += 1
         if not max(d) <= TOL:
@@ -501,6 +536,8 @@ FLOWS = {
                    ("grad",), ("unsupported", "NMR"), ("unsupported", "Hessian")],
     "nldf-uks-reset": [("configure", "U", 1, "becke"), ("decorate", "nldf"), ("kernel",), ("reset", "m2"), ("kernel",), ("to_other_spin",),
                        ("kernel",), ("redecorate",), ("grid_attr", "level", 1), ("kernel",)],
+    "inplace-move": [("configure", "R", 0, "becke"), ("decorate", "nldfsdmx"), ("kernel",), ("move_in_place",), ("kernel",), ("set_mlxc", "sdmx"),
+                     ("kernel",), ("move_in_place",), ("kernel",), ("grad",)],
     "nldfsdmx-df-direct": [("configure", "R", 0, "becke"), ("decorate", "nldfsdmx"), ("direct_call",), ("build",), ("init", ), ("direct_call",),
                            ("density_fit",), ("direct_call",), ("grid_attr", "becke_scheme", "stratmann"), ("init",), ("direct_call",), ("grad",)],
 }
@@ -509,6 +546,7 @@ FLOWS = {
 def record_flow(job):
     """Run one real flow with the recorder installed; returns the event list."""
     W = _world(job["seed"])
+    W.restore_geoms()
     rec = FlowRecorder(W)
     steps = FLOWS[job["flow"]]
     rec.install()
@@ -567,6 +605,16 @@ def record_flow(job):
                     pass
             elif name == "reset":
                 ks.reset(W.mols[st[1]])
+            elif name == "move_in_place":
+                before = rec.snap()
+                mn = next(k for k, v in W.mols.items() if v is ks.mol)
+                rec.depth += 1
+                try:
+                    W.move_in_place(mn)
+                    ks.grids.build(with_non0tab=True)
+                finally:
+                    rec.depth -= 1
+                rec.emit("MoveInPlace", before, "ok")
             elif name == "scan":
                 sc = ks.as_scanner()
                 sc.max_cycle = 2
